@@ -398,6 +398,10 @@ impl Backend for SimBackend {
     }
     fn stream_peer(&self, sock: u64) -> io::Result<SocketAddr> {
         let n = cur().ok_or_else(no_net)?;
+        // the peer reset the connection before it was looked at: getpeername fails with ENOTCONN
+        if n.fault(&format!("peer:{}", sock), &[("peer_addr_fail", 60, 0)]).is_some() {
+            return Err(io::Error::new(io::ErrorKind::NotConnected, "simulated ENOTCONN"));
+        }
         let st = n.st.lock().unwrap();
         st.streams.get(&sock).and_then(|s| s.peer_addr).ok_or_else(|| io::Error::new(io::ErrorKind::NotConnected, "no peer"))
     }
@@ -424,6 +428,30 @@ impl Backend for SimBackend {
     fn accept(&self, listener: u64) -> io::Result<(u64, SocketAddr)> {
         let n = cur().ok_or_else(no_net)?;
         dsim::point("net.accept");
+        // the process is momentarily out of file descriptors: accept fails, the connection stays
+        // queued (only where a connection is pending, and only for listeners driven outside dsim:
+        // the HTTP listener's accept loop)
+        if !dsim::in_sim() {
+            let pending = n.st.lock().unwrap().listeners.get(&listener).map_or(false, |l| !l.1.is_empty());
+            if pending && n.fault(&format!("accept:{}", listener), &[("accept_emfile", 60, 0)]).is_some() {
+                return Err(io::Error::from_raw_os_error(24));
+            }
+        }
+        // a client that connected and reset before it was accepted: accept() fails with ECONNABORTED
+        // and that connection is gone (listeners driven under dsim: the TCP exporter's transport)
+        if dsim::in_sim() {
+            let pending = n.st.lock().unwrap().listeners.get(&listener).map_or(false, |l| !l.1.is_empty());
+            if pending && n.fault(&format!("accept:{}", listener), &[("accept_aborted", 40, 0)]).is_some() {
+                let mut st = n.st.lock().unwrap();
+                if let Some(id) = st.listeners.get_mut(&listener).and_then(|l| l.1.pop_front()) {
+                    if let Some(s) = st.streams.get_mut(&id) {
+                        s.reset = true;
+                        s.ended_by_fault = true;
+                    }
+                }
+                return Err(io::Error::new(io::ErrorKind::ConnectionAborted, "simulated ECONNABORTED"));
+            }
+        }
         let mut st = n.st.lock().unwrap();
         let l = st.listeners.get_mut(&listener).ok_or_else(no_net)?;
         match l.1.pop_front() {
